@@ -6,7 +6,8 @@ three config keys, every argument layout. Every case runs the REAL binary R time
 
 Oracle per case:
  1. the tool exits 0 every time;
- 2. all R outputs are byte-identical;
+ 2. all R outputs are byte-identical; one further run over an output path that already holds a longer file (the first output
+    plus a tail) gives the same bytes again (the result is a function of input and configuration only);
  3. `gcc -std=c99 -fsyntax-only` / `g++ -std=c++11 -fsyntax-only` accept (each distinct) output on its own;
  4. every planted foreign declaration (struct / typedef / function text exactly as the synthesiser emitted it) occurs verbatim in
     the output, in the original relative order;
@@ -89,6 +90,15 @@ def run_case(case, exe, stubdir, workroot, R, keep=False):
                     V.append(("args_forwarding:%s" % layout, "a second --output was honoured"))
             outputs.setdefault(res["output"] or "", 0)
             outputs[res["output"] or ""] += 1
+        # 2b. the result does not depend on what was at the output path before: re-run over a longer, stale file
+        if first is not None and first["out_expected_in_file"] and first["output"] is not None and not V:
+            stale = first["output"] + "\n/* stale tail of a previous, longer header */\n" + "int stale_%d;\n" * 40 % tuple(range(40))
+            res = TL.run_tool(exe, stubdir, wd, r["text"], case.get("config"), layout, stale=stale)
+            if res["rc"] == 0 and res["output"] != first["output"]:
+                keep_tail = res["output"] is not None and res["output"].endswith(stale[len(first["output"]):])
+                V.append(("output_depends_on_previous_file:%s" % layout,
+                          "with a longer file already present at the output path the result differs from a fresh run (%s)" % (
+                              "the old file's tail survives: the output file is not truncated" if keep_tail else "different content")))
         # 2. reproducibility
         if len(outputs) > 1:
             V.append(("nondeterministic_output:%dcontexts%s%s" % (n_contexts(case["model"]), ":wrapped" if is_wrapped(case["model"]) else "",
